@@ -4,6 +4,6 @@ from .simprops import generic_run, sizes, sim_replay
 from .p_session import run_session_correspondence
 LABELS = {"C01", "PANIC"}
 def run(ctx):
-    generic_run(ctx, LABELS, extra=run_session_correspondence, plan=[("c01", lambda: F.fam_c01(ctx.rng, sizes(ctx, 300, 3000))), ("long", lambda: F.fam_long(ctx.rng, sizes(ctx, 12, 120)))])
+    generic_run(ctx, LABELS, extra=run_session_correspondence, plan=[("edge", lambda: F.fam_edge(ctx.rng, sizes(ctx, 100, 1000), tag="c01e")), ("c01", lambda: F.fam_c01(ctx.rng, sizes(ctx, 300, 3000))), ("long", lambda: F.fam_long(ctx.rng, sizes(ctx, 12, 120)))])
 def replay(ctx, path):
     return sim_replay(ctx, path, LABELS)
